@@ -320,3 +320,34 @@ def conc_replay(ctx, path):
         bad += a != strip_how(b)
         print("%s %s | impl: %s | model: %s" % (mark, o, a, b))
     return bad
+
+
+def accounting_stage(ctx, cov):
+    """C13's concurrent clause: at every point of every scheduled interleaving where all threads
+    are parked or idle, memory_usage() and len() equal the footprints / number of the live
+    records (harness oracle on the implementation alone) and the Lean system's figures"""
+    ok, out = cargo_build(ctx, ["conc"])
+    if not ok:
+        return
+    outs = run_conc(ctx, 8, ["cases=%d" % (120 if ctx.tier == "quick" else 3000)])
+    lines = bad = moddiff = 0
+    for o in outs:
+        if "crash" in o:
+            violation(ctx, "conc harness did not finish: " + o["crash"], o["crash"], tag="crash")
+            continue
+        lines += len(o["ops"])
+        for f in o["fails"]:
+            if f["prop"] == "C13":
+                bad += 1
+                if bad <= 2:
+                    txt = open(f["replay"]).read() if os.path.exists(f["replay"]) else ""
+                    violation(ctx, "memory accounting under an interleaving: " + f["what"], "# schedule (replay: ./check C07 --replay <this file>)\n" + txt, tag="acc")
+        for op, im, mo in zip(o["ops"], o["impl"], o["model"]):
+            acc = lambda l: re.findall(r" (mem=\d+ n=\d+)", l)
+            if acc(im) != acc(strip_how(mo)):
+                moddiff += 1
+                if moddiff <= 1 and bad == 0:
+                    violation(ctx, "correspondence: memory_usage()/len() differ from the Lean system's figures at `%s`: `%s` vs `%s`" % (op, im, strip_how(mo)), op + "\n", no_input=True, tag="acc")
+    ctx.log("accounting stage: %d scheduled lines, %d oracle failures, %d model differences" % (lines, bad, moddiff))
+    cov["scheduled_interleaving_lines"] = lines
+    cov["accounting_oracle_failures"] = bad
